@@ -108,7 +108,93 @@ func (s *dpState) readBack(dir string) error {
 }
 
 func openStore(dir string, max int) (blobserver.Storage, error) {
-	return blobserver.CreateStorage("diskpacked", nil, jsonconfig.Obj{"path": dir, "maxFileSize": float64(max)})
+	return blobserver.CreateStorage("diskpacked", nil, jsonconfig.Obj{"path": dir, "maxFileSize": float64(max),
+		"metaIndex": map[string]any{"type": "c03probe", "file": filepath.Join(dir, "index.leveldb"), "dir": dir}})
+}
+
+// probeKV is the store's index (the default LevelDB file) behind an observer: when a row is set, are the
+// bytes it points at already in the pack file?  when row deletions are committed, has the pack record
+// already been rewritten?  This ties the extracted source order of append / RemoveBlobs to the run time
+// (writes only – an fsync cannot be observed from inside the process).
+type probeObs struct {
+	setAfterBytes, setBeforeBytes         int
+	commitAfterRewrite, commitBeforeWrite int
+}
+
+var probe probeObs
+
+type probeKV struct {
+	sorted.KeyValue
+	dir string
+}
+
+type probeBatch struct {
+	sorted.BatchMutation
+	dels []string
+}
+
+func (b *probeBatch) Delete(k string) { b.dels = append(b.dels, k); b.BatchMutation.Delete(k) }
+
+func (p *probeKV) Set(k, v string) error {
+	var file, off, size int
+	if n, _ := fmt.Sscan(v, &file, &off, &size); n == 3 {
+		if fi, err := os.Stat(packName(p.dir, file)); err == nil && fi.Size() >= int64(off+size) {
+			probe.setAfterBytes++
+		} else {
+			probe.setBeforeBytes++
+		}
+	}
+	return p.KeyValue.Set(k, v)
+}
+
+func (p *probeKV) BeginBatch() sorted.BatchMutation { return &probeBatch{BatchMutation: p.KeyValue.BeginBatch()} }
+
+func (p *probeKV) CommitBatch(b sorted.BatchMutation) error {
+	pb, ok := b.(*probeBatch)
+	if !ok {
+		return p.KeyValue.CommitBatch(b)
+	}
+	for _, k := range pb.dels {
+		v, err := p.KeyValue.Get(k)
+		if err != nil {
+			continue
+		}
+		var file, off, size int
+		if n, _ := fmt.Sscan(v, &file, &off, &size); n != 3 {
+			continue
+		}
+		hl := 1 + len(k) + 1 + len(strconv.Itoa(size)) + 1
+		f, err := os.Open(packName(p.dir, file))
+		if err != nil || off < hl {
+			continue
+		}
+		hdr := make([]byte, 2)
+		_, err = f.ReadAt(hdr, int64(off-hl))
+		f.Close()
+		if err != nil {
+			continue
+		}
+		if hdr[1] == 'x' {
+			probe.commitAfterRewrite++
+		} else {
+			probe.commitBeforeWrite++
+		}
+	}
+	return p.KeyValue.CommitBatch(pb.BatchMutation)
+}
+
+func init() {
+	sorted.RegisterKeyValue("c03probe", func(cfg jsonconfig.Obj) (sorted.KeyValue, error) {
+		file, dir := cfg.RequiredString("file"), cfg.RequiredString("dir")
+		if err := cfg.Validate(); err != nil {
+			return nil, err
+		}
+		kv, err := sorted.NewKeyValue(jsonconfig.Obj{"type": "leveldb", "file": file})
+		if err != nil {
+			return nil, err
+		}
+		return &probeKV{kv, dir}, nil
+	})
 }
 
 // session runs f on the real store opened over the materialised state and reads the state back.
@@ -300,7 +386,9 @@ func crashAppend(before, after *dpState, ref string, keep int, np, row bool) (*d
 	if keep > len(add) {
 		return nil, false
 	}
-	if row && !(keep == len(add) && (!rollover || np)) {
+	// row only after all bytes are synced; the next pack file only after that too; row and roll-over in
+	// either order (the source order of index.Set and nextPack has changed once already)
+	if row && keep != len(add) {
 		return nil, false
 	}
 	if np && !(rollover && keep == len(add)) {
